@@ -215,3 +215,6 @@ func BytesEq(a, b []byte) bool {
 	return true
 }
 func StrEq(a, b string) bool { return a == b }
+
+// Pick returns x; under the engine the path is case-split so that x is concrete.
+func Pick(x int) int { return x }
